@@ -1178,3 +1178,256 @@ Proof.
   intros Hmd Hwf. unfold reached. rewrite <- init_state_neg.
   apply stopping_mode_symmetry; [exact Hmd|apply init_inv; exact Hwf].
 Qed.
+
+(* ======================================================================== *)
+(* 9. Rung level construction and the rung structure of reachable states     *)
+(* ======================================================================== *)
+
+Lemma geo_levels_ok max_t rf fuel : forall cur, (0 < cur)%Z -> (2 <= rf)%Z ->
+  Forall (fun x => (cur <= x < max_t)%Z) (geo_levels fuel cur rf max_t) /\
+  StronglySorted Z.lt (geo_levels fuel cur rf max_t).
+Proof.
+  induction fuel as [|fuel IH]; intros cur Hc Hrf; simpl; [split; constructor|].
+  destruct (cur <? max_t)%Z eqn:E; [|split; constructor].
+  destruct (IH (cur * rf)%Z ltac:(nia) Hrf) as [H1 H2]. split.
+  - constructor; [lia|]. rewrite Forall_forall in *. intros x Hx. specialize (H1 x Hx). nia.
+  - constructor; [exact H2|]. rewrite Forall_forall in *. intros x Hx. specialize (H1 x Hx). nia.
+Qed.
+
+Lemma arith_levels_ok max_t incr fuel : forall cur, (1 <= incr)%Z ->
+  Forall (fun x => (cur <= x < max_t)%Z) (arith_levels fuel cur incr max_t) /\
+  StronglySorted Z.lt (arith_levels fuel cur incr max_t).
+Proof.
+  induction fuel as [|fuel IH]; intros cur Hi; simpl; [split; constructor|].
+  destruct (cur <? max_t)%Z eqn:E; [|split; constructor].
+  destruct (IH (cur + incr)%Z Hi) as [H1 H2]. split.
+  - constructor; [lia|]. rewrite Forall_forall in *. intros x Hx. specialize (H1 x Hx). lia.
+  - constructor; [exact H2|]. rewrite Forall_forall in *. intros x Hx. specialize (H1 x Hx). lia.
+Qed.
+
+Lemma strictly_increasing_sorted l : strictly_increasing l = true -> StronglySorted Z.lt l.
+Proof.
+  induction l as [|x l IH]; intro H; [constructor|].
+  destruct l as [|y r]; [constructor; constructor|].
+  change (strictly_increasing (x :: y :: r)) with ((x <? y)%Z && strictly_increasing (y :: r)) in H.
+  apply andb_true_iff in H as [Hxy Hr]. specialize (IH Hr).
+  constructor; [exact IH|]. inversion IH as [|? ? _ Hf]; subst.
+  constructor; [lia|]. rewrite Forall_forall in *. intros z Hz. specialize (Hf z Hz). lia.
+Qed.
+
+Lemma last_In (l : list Z) : l <> [] -> In (last l 0%Z) l.
+Proof.
+  induction l as [|x l IH]; intro H; [congruence|].
+  destruct l as [|y r]; [left; reflexivity|]. right. apply IH. discriminate.
+Qed.
+
+Lemma ssorted_snoc_inv {A} (R : A -> A -> Prop) l z :
+  StronglySorted R (l ++ [z]) -> StronglySorted R l /\ Forall (fun y => R y z) l.
+Proof.
+  induction l as [|a l IH]; simpl; intro H; [split; constructor|].
+  inversion H as [|? ? Hs Hf]; subst. destruct (IH Hs) as [H1 H2]. split.
+  - constructor; [exact H1|]. apply Forall_app in Hf. tauto.
+  - constructor; [|exact H2]. rewrite Forall_forall in Hf. apply Hf. apply in_or_app. right. left. reflexivity.
+Qed.
+
+Theorem sh_rung_levels_wf rl grace rf incr max_t l :
+  sh_rung_levels rl grace rf incr max_t = Some l -> wf_levels l max_t /\ l <> [].
+Proof.
+  unfold sh_rung_levels. intro H.
+  (* the list before stripping a final max_t: sorted, positive, <= max_t, non-empty, and if its last
+     element is max_t it has at least two elements *)
+  assert (Hpre : exists l0, l = (if (last l0 0 =? max_t)%Z then removelast l0 else l0) /\
+                            StronglySorted Z.lt l0 /\ Forall (fun x => (0 < x <= max_t)%Z) l0 /\
+                            l0 <> [] /\ ((last l0 0 = max_t)%Z -> removelast l0 <> [])).
+  { destruct rl as [l0|].
+    - destruct ((2 <=? length l0)%nat && forallb (fun x => (1 <=? x)%Z) l0 && strictly_increasing l0
+                && (last l0 0 <=? max_t)%Z) eqn:E; [|discriminate].
+      simpl in H. injection H as <-. exists l0.
+      apply andb_true_iff in E as [E E4]. apply andb_true_iff in E as [E E3]. apply andb_true_iff in E as [E1 E2].
+      pose proof (strictly_increasing_sorted l0 E3) as Hs.
+      assert (Hne : l0 <> []) by (destruct l0; [simpl in E1; lia|discriminate]).
+      split; [reflexivity|]. split; [exact Hs|]. split; [|split; [exact Hne|]].
+      + rewrite forallb_forall in E2. rewrite Forall_forall. intros x Hx. specialize (E2 x Hx).
+        rewrite (app_removelast_last 0%Z Hne) in Hs, Hx. apply ssorted_snoc_inv in Hs as [_ Hlt].
+        rewrite Forall_forall in Hlt. apply in_app_or in Hx as [Hx|[<-|[]]]; [specialize (Hlt x Hx)|]; lia.
+      + intros _. destruct l0 as [|a [|b r]]; simpl in E1; try lia. discriminate.
+    - destruct ((1 <=? grace)%Z && (1 <=? max_t)%Z && (grace <? max_t)%Z) eqn:E; [|discriminate].
+      apply andb_true_iff in E as [E E3]. apply andb_true_iff in E as [E1 E2].
+      assert (Hfuel : exists f, Z.to_nat max_t = S f) by (exists (Z.to_nat max_t - 1)%nat; lia).
+      destruct Hfuel as [f Hf].
+      destruct rf as [rf|].
+      + destruct (2 <=? rf)%Z eqn:Erf; [|discriminate]. simpl in H. injection H as <-.
+        destruct (geo_levels_ok max_t rf (Z.to_nat max_t) grace ltac:(lia) ltac:(lia)) as [H1 H2].
+        exists (geo_levels (Z.to_nat max_t) grace rf max_t). split; [reflexivity|]. split; [exact H2|].
+        assert (Hne : geo_levels (Z.to_nat max_t) grace rf max_t <> []).
+        { rewrite Hf. simpl. destruct (grace <? max_t)%Z; [discriminate|lia]. }
+        split; [|split; [exact Hne|]].
+        * rewrite Forall_forall in *. intros x Hx. specialize (H1 x Hx). lia.
+        * intro Hl. exfalso. rewrite Forall_forall in H1.
+          specialize (H1 _ (last_In _ Hne)). lia.
+      + destruct incr as [incr|]; [|discriminate].
+        destruct (1 <=? incr)%Z eqn:Ei; [|discriminate]. simpl in H. injection H as <-.
+        destruct (arith_levels_ok max_t incr (Z.to_nat max_t) grace ltac:(lia)) as [H1 H2].
+        exists (arith_levels (Z.to_nat max_t) grace incr max_t). split; [reflexivity|]. split; [exact H2|].
+        assert (Hne : arith_levels (Z.to_nat max_t) grace incr max_t <> []).
+        { rewrite Hf. simpl. destruct (grace <? max_t)%Z; [discriminate|lia]. }
+        split; [|split; [exact Hne|]].
+        * rewrite Forall_forall in *. intros x Hx. specialize (H1 x Hx). lia.
+        * intro Hl. exfalso. rewrite Forall_forall in H1.
+          specialize (H1 _ (last_In _ Hne)). lia. }
+  destruct Hpre as [l0 [-> [Hs [Hf [Hne Hrl]]]]].
+  pose proof (app_removelast_last 0%Z Hne) as Hsplit.
+  destruct (last l0 0 =? max_t)%Z eqn:El.
+  - apply Z.eqb_eq in El. split; [|apply Hrl; exact El].
+    rewrite Hsplit in Hs, Hf. apply ssorted_snoc_inv in Hs as [Hs1 Hlt]. apply Forall_app in Hf as [Hf1 _].
+    split; [exact Hs1|]. rewrite Forall_forall in *. intros x Hx. specialize (Hlt x Hx). specialize (Hf1 x Hx). lia.
+  - split; [|exact Hne]. split; [exact Hs|].
+    rewrite Hsplit in Hs. apply ssorted_snoc_inv in Hs as [_ Hlt].
+    rewrite Forall_forall in *. intros x Hx. pose proof (Hf _ (last_In _ Hne)) as Hlast. specialize (Hf x Hx).
+    rewrite Hsplit in Hx. apply in_app_or in Hx as [Hx|[<-|[]]]; [specialize (Hlt x Hx)|]; lia.
+Qed.
+
+(* --- (level, quantile) signatures never change; structure of the initial systems ------------ *)
+
+Definition sys_sigs (st : state) : list (list (Z * Q)) :=
+  map (fun sys => map rsig (rs_rungs sys)) (s_sys st).
+
+Lemma scan_sigs md tcf ths t r m rs : map rsig (rp_rungs (scan md tcf ths t r m rs)) = map rsig rs.
+Proof.
+  induction rs as [|rg rest IH]; simpl; [reflexivity|].
+  destruct ((r <? r_level rg)%Z || rung_contains t rg); simpl; [rewrite IH; reflexivity|].
+  destruct (r_level rg <? r)%Z; simpl; [reflexivity|].
+  destruct (tcf (rung_add md rg t m) t m ths). reflexivity.
+Qed.
+
+Lemma rs_report_sigs md tcf max_t sys skip t r m :
+  map rsig (rs_rungs (fst (fst (rs_on_task_report md tcf max_t sys skip t r m)))) = map rsig (rs_rungs sys).
+Proof.
+  unfold rs_on_task_report. destruct (r =? max_t)%Z; simpl; [reflexivity|].
+  rewrite map_app, scan_sigs, <- map_app, milestone_split. reflexivity.
+Qed.
+
+Lemma list_set_map_same {A B} (f : A -> B) l i x y :
+  nth_error l i = Some y -> f x = f y -> map f (list_set l i x) = map f l.
+Proof.
+  revert i. induction l as [|z l IH]; intros [|i] H E; simpl in *; try discriminate; try reflexivity.
+  - injection H as ->. rewrite E. reflexivity.
+  - f_equal. apply IH; assumption.
+Qed.
+
+Lemma step_sigs tcf cfg st ev : sys_sigs (fst (step_gen tcf cfg st ev)) = sys_sigs st.
+Proof.
+  destruct ev as [t b|t r m|t|t|t]; simpl; try reflexivity.
+  - destruct (nth_error (s_sys st) (sys_id cfg b)); [|reflexivity].
+    destruct (assoc_get (s_active st) t); reflexivity.
+  - unfold on_trial_result_gen. destruct (r <? 1)%Z; [reflexivity|].
+    destruct (assoc_get (s_active st) t) as [[| |]|]; try reflexivity.
+    destruct (assoc_get (s_task st) t) as [b|]; [|reflexivity].
+    destruct (nth_error (s_sys st) (sys_id cfg b)) as [sys|] eqn:Es; [|reflexivity].
+    destruct (r <? c_max_t cfg)%Z; [|reflexivity].
+    set (res := rs_on_task_report _ _ _ _ _ _ _ _).
+    assert (H : sys_sigs {| s_sys := list_set (s_sys st) (sys_id cfg b) (fst (fst res));
+                            s_task := s_task st; s_active := s_active st |} = sys_sigs st).
+    { unfold sys_sigs. simpl. eapply list_set_map_same; [exact Es|]. apply rs_report_sigs. }
+    destruct (snd (fst res)) as [[|]|]; exact H.
+  - destruct (assoc_get (s_active st) t); reflexivity.
+Qed.
+
+Lemma run_sigs cfg evs : forall st, sys_sigs (run cfg st evs) = sys_sigs st.
+Proof.
+  unfold run. induction evs as [|ev evs IH]; intro st; simpl; [reflexivity|].
+  rewrite IH. apply (step_sigs (cfg_tcf cfg)).
+Qed.
+
+Lemma combine_skipn {A B} s : forall (l : list A) (q : list B),
+  combine (skipn s l) (skipn s q) = skipn s (combine l q).
+Proof.
+  induction s as [|s IH]; intros l q; [reflexivity|].
+  destruct l as [|x l]; [reflexivity|]. destruct q as [|y q]; simpl.
+  - destruct (skipn s l); reflexivity.
+  - apply IH.
+Qed.
+
+Lemma skipn_tl {A} s (l : list A) : skipn s (tl l) = skipn (S s) l.
+Proof. destruct l; simpl; [destruct s; reflexivity|reflexivity]. Qed.
+
+Lemma mk_rungs_sigs levels quants : map rsig (mk_rungs levels quants) = rev (combine levels quants).
+Proof.
+  unfold mk_rungs. rewrite map_rev, map_map. f_equal.
+  rewrite <- (map_id (combine levels quants)) at 2. apply map_ext. intros [l q]. reflexivity.
+Qed.
+
+Lemma mk_systems_sigs num : forall levels quants,
+  map (fun sys => map rsig (rs_rungs sys)) (mk_systems levels quants num) =
+  map (fun s => rev (skipn s (combine levels quants))) (seq 0 num).
+Proof.
+  induction num as [|num IH]; intros levels quants; simpl; [reflexivity|].
+  rewrite mk_rungs_sigs. f_equal. rewrite IH. rewrite <- seq_shift, map_map.
+  apply map_ext. intro s. rewrite <- combine_skipn, !skipn_tl, combine_skipn. reflexivity.
+Qed.
+
+Lemma firstn_rev_skipn {A} k (l : list A) : firstn (length (rev l) - k) (rev l) = rev (skipn k l).
+Proof.
+  rewrite rev_length, firstn_rev. f_equal.
+  destruct (le_lt_dec k (length l)) as [H|H].
+  - f_equal. lia.
+  - replace (length l - (length l - k))%nat with (length l) by lia.
+    rewrite !skipn_all2 by lia. reflexivity.
+Qed.
+
+(* the rungs at which a trial of bracket b decides, top down: the configured (level, level/next level)
+   pairs with the b lowest removed *)
+Theorem own_rungs_structure cfg levels brackets evs b sys :
+  let st := reached cfg levels brackets evs in
+  nth_error (s_sys st) (sys_id cfg b) = Some sys ->
+  map rsig (own_rungs cfg st b) = rev (skipn b (combine levels (mk_quantiles levels (c_max_t cfg)))).
+Proof.
+  intros st Hs. unfold own_rungs. rewrite Hs.
+  assert (Hsig : nth_error (sys_sigs st) (sys_id cfg b) = Some (map rsig (rs_rungs sys))).
+  { unfold sys_sigs. apply (map_nth_error (fun sys => map rsig (rs_rungs sys))). exact Hs. }
+  unfold st, reached in Hsig. rewrite run_sigs in Hsig. unfold sys_sigs, init_state in Hsig. simpl in Hsig.
+  rewrite mk_systems_sigs in Hsig.
+  set (X := combine levels (mk_quantiles levels (c_max_t cfg))) in *.
+  set (num := if c_per_bracket cfg then Nat.min brackets (length levels + 1) else 1%nat) in *.
+  assert (Hlt : (sys_id cfg b < num)%nat).
+  { assert (Hn : nth_error (map (fun s : nat => rev (skipn s X)) (seq 0 num)) (sys_id cfg b) <> None) by congruence.
+    apply nth_error_Some in Hn. rewrite map_length, seq_length in Hn. exact Hn. }
+  rewrite (map_nth_error (fun s : nat => rev (skipn s X)) (sys_id cfg b) (seq 0 num) (d := sys_id cfg b)) in Hsig.
+  2:{ rewrite (nth_error_nth' _ 0%nat) by (rewrite seq_length; exact Hlt). rewrite seq_nth by exact Hlt. reflexivity. }
+  injection Hsig as Hsig.
+  unfold milestone_rungs. rewrite <- firstn_map. rewrite <- (map_length rsig (rs_rungs sys)). rewrite <- Hsig.
+  rewrite firstn_rev_skipn. f_equal. unfold sys_id, skip_of. destruct (c_per_bracket cfg).
+  - simpl. apply skipn_O.
+  - simpl. reflexivity.
+Qed.
+
+Lemma mk_quantiles_length levels max_t : length (mk_quantiles levels max_t) = length levels.
+Proof. induction levels as [|x l IH]; simpl; [reflexivity|rewrite IH; reflexivity]. Qed.
+
+Lemma map_fst_combine {A B} (l : list A) : forall (q : list B), length q = length l -> map fst (combine l q) = l.
+Proof.
+  induction l as [|x l IH]; intros [|y q] H; simpl in *; try discriminate; [reflexivity|].
+  f_equal. apply IH. lia.
+Qed.
+
+Corollary own_rung_levels cfg levels brackets evs b sys :
+  let st := reached cfg levels brackets evs in
+  nth_error (s_sys st) (sys_id cfg b) = Some sys ->
+  map r_level (own_rungs cfg st b) = rev (skipn b levels).
+Proof.
+  intros st Hs. pose proof (own_rungs_structure cfg levels brackets evs b sys Hs) as H.
+  apply (f_equal (map fst)) in H. rewrite map_map in H. simpl in H. fold st in H.
+  rewrite map_rev, <- skipn_map, map_fst_combine in H by apply mk_quantiles_length. exact H.
+Qed.
+
+(* promote_quantiles = [x / y for x, y in zip(rung_levels, rung_levels[1:] + [max_t])] *)
+Lemma mk_quantiles_nth max_t levels : forall j, (j < length levels)%nat ->
+  nth j (mk_quantiles levels max_t) 0 =
+  inject_Z (nth j levels 0%Z) / inject_Z (nth (S j) (levels ++ [max_t]) 0%Z).
+Proof.
+  induction levels as [|x rest IH]; intros j Hj; simpl in Hj; [lia|].
+  destruct j as [|j].
+  - simpl. destruct rest; reflexivity.
+  - simpl mk_quantiles. change (nth (S j) (?a :: ?l) 0) with (nth j l 0).
+    rewrite IH by lia. reflexivity.
+Qed.
